@@ -8,8 +8,12 @@ PROPS = ["MagpyVerif.Props.C05"] + _sym.PROPS
 NOT_SHOWN = {
  "03": ["full getBH pipeline covariance with Sensor observers (proved for position observers; sensors are C04)"],
  "04": ["pixel_agg reductions other than sum/min/max (mean, median, std, ...) are not modelled; the theorem holds for any reduction function of the pixel list, the stream exercises sum/min/max"],
- "05": ["linearity of the CylinderSegment and TriangularMesh kernels in their excitation (not ported to the real carrier; oracle only); proved: the marshalling "
+ "05": ["linearity of the TriangularMesh kernel in its excitation (not ported to the real carrier; oracle only); proved: the marshalling "
         "preserves linearity for any F, and the Dipole, Sphere (C12), segment, Circle, Cuboid, Triangle, Tetrahedron kernels are linear",
+        "CylinderSegment: full linearity in the polarization VECTOR of all four outputs of the ported BHJM_cylinder_segment IS proved (`cylseg_linear_in_magnetization`: 129 case functions "
+        "each linear in the unit vector, statements generated from the source's parameter lists (Lemmas/KernCylSegLinGen.lean, kept in sync by cylseg_lin_in_sync), the code's "
+        "arctan2-conversion proved a right inverse of spherical->Cartesian for every vector); ellipkinc / ellipeinc / el3_angle are opaque functions (they never see the magnetization "
+        "angles: `cylseg_special_functions_magnetization_free`); the batch path of el3 (n >= 10 rows) and float rounding are not modelled",
         "Cylinder (ported BHJM_magnet_cylinder, single-row path, cel0 opaque): full linearity in the polarization IS proved (`cylinder_linear_in_polarization`, whenever "
         "the three evaluations return; plus proportionality and transversal + axial split as equalities of optional results); not modelled: the vectorised celv path (n >= 10 rows)"],
  "06": ["batch-level control flow inside kernels (rowwise_c: trimesh grouping, segment early return, cel n<10) — kernel model pending",
